@@ -1,5 +1,7 @@
 """C09 - UDP responses follow BEP 15."""
+from e2e_common import e2e_part
 PROP = {
+    "parts": [e2e_part("chkE09", 40, 800)],
     "glue": "G09", "chk": "chk09", "explain": "explain09",
     "n": {"quick": 1500, "thorough": 25000},
     "rule": "cases = WriteAnnounce (interval grid incl. sub-second, negative, >= 2^31 s, int64 extremes; counts 0..2^32-1; 0..110 peers per family; both actions x both requester families; "
